@@ -12,7 +12,14 @@
   running the kernels under `valgrind --tool=lackey` and comparing the traces as multisets (vlib/tracecheck.py).
   `_partial`: copy / copy_row / submatrix need `0 < ncols` resp. a non-empty column range — the `_full_false` theorems are
   kernel-checked counterexamples, and the real code does misbehave there (0-column source: word −1 is accessed); those
-  shapes are outside the >= 1x1 domain of this property and are recorded in DESIGN.md as out-of-domain observations. (b) the allocator bookkeeping never releases a block twice
+  shapes are outside the >= 1x1 domain of this property and are recorded in DESIGN.md as out-of-domain observations.
+  SECOND PART (M4ri/Safety2.lean, M4riProofs/Safety2.lean): the same three statements for `mzd_process_rows2..6`, the column
+  permutation kernels of mzp.c (`_mzd_apply_p_right_even` with the 64-way gather `mzd_write_col_to_rows_blockd`, `mzd_col_swap`,
+  `mzd_apply_p_left(_trans)`, `mzd_apply_p_right_trans_tri`), `_mzd_compress_l`, the PLE tables and row processing
+  (`mzd_make_table_ple`, `_mzd_process_rows_ple_2..8`, `_mzd_ple_a11_*`, `_mzd_ple_a10`), the TRSM / TRTRI tables and strips
+  (`_mzd_trsm_{upper,lower}_left_submatrix`, `mzd_make_table_trtri`, whole Four-Russians solves as compositions) and ALL
+  transposition kernels and dispatchers; `…_witness` theorems are kernel-checked inputs showing that a stated precondition
+  (equal 16-byte phases of a matrix and its tables, permutation entries in range, …) is necessary. (b) the allocator bookkeeping never releases a block twice
   and retains nothing after finalisation (C14). What NO theorem here covers and only the implementation-side runs see:
   real out-of-bounds / misaligned-vector / use-after-free accesses and undefined arithmetic in the C text (every
   correspondence suite is also executed under AddressSanitizer + UndefinedBehaviorSanitizer with allocator balance
@@ -24,6 +31,7 @@ import M4riProofs.W.Perm
 import M4riProofs.W.DataMove
 import M4riProofs.Alloc
 import M4riProofs.Safety
+import M4riProofs.Safety2
 namespace M4ri.Props.C11
 
 #check @M4ri.Mzd.rowSwapFrom_WF
@@ -112,5 +120,163 @@ namespace M4ri.Props.C11
 #check @M4ri.Safety.accMakeTable_aligned
 #check @M4ri.Safety.accProcessRows_aligned
 #check @M4ri.Safety.phase_row_indep
+
+#check @M4ri.Safety.accProcessRowsN_inBounds
+#check @M4ri.Safety.accProcessRowsN_aligned
+#check @M4ri.Safety.accProcessRowsN_phase_witness
+#check @M4ri.Safety.shProcessRowsN_ok
+#check @M4ri.Safety.accApplyPLeft_inBounds
+#check @M4ri.Safety.accApplyPLeftTrans_inBounds
+#check @M4ri.Safety.accApplyPLeft_values_witness
+#check @M4ri.Safety.accApplyPLeft_aligned
+#check @M4ri.Safety.accApplyPLeftTrans_aligned
+#check @M4ri.Safety.accColSwap_inBounds
+#check @M4ri.Safety.accColSwap_aligned
+#check @M4ri.Safety.shColSwap_ok
+#check @M4ri.Safety.swapAt_lt
+#check @M4ri.Safety.mathPerm_lt
+#check @M4ri.Safety.accWriteColToRowsBlockd_inBounds
+#check @M4ri.Safety.accWriteColToRowsBlockd_aligned
+#check @M4ri.Safety.accApplyPRightEvenPerm_inBounds
+#check @M4ri.Safety.accApplyPRightEvenPerm_aligned
+#check @M4ri.Safety.accApplyPRightEven_inBounds
+#check @M4ri.Safety.accApplyPRightEven_aligned
+#check @M4ri.Safety.accApplyPRightEven_values_witness
+#check @M4ri.Safety.shApplyPRightEvenPerm_ok
+#check @M4ri.Safety.accApplyPRightTransTri_inBounds
+#check @M4ri.Safety.accApplyPRightTransTri_aligned
+#check @M4ri.Safety.shApplyPRightTransTri_ok
+#check @M4ri.Safety.accCompressL_inBounds
+#check @M4ri.Safety.accCompressL_full_false
+#check @M4ri.Safety.accCompressL_aligned
+#check @M4ri.Safety.shCompressL_ok
+#check @M4ri.Safety.accCompressL_cut_witness
+#check @M4ri.Safety.accXorBitsOp_aligned
+#check @M4ri.Safety.take_sum_lt
+#check @M4ri.Safety.accProcessRowsPle_inBounds
+#check @M4ri.Safety.accProcessRowsPle_aligned
+#check @M4ri.Safety.accProcessRowsPle_phase_witness
+#check @M4ri.Safety.shProcessRowsPle_ok
+#check @M4ri.Safety.shProcessRowsPle_k0_witness
+#check @M4ri.Safety.accPleA11N_inBounds
+#check @M4ri.Safety.accPleA11N_aligned
+#check @M4ri.Safety.accPleA11N_phase_witness
+#check @M4ri.Safety.shPleA11N_ok
+#check @M4ri.Safety.accPleA11_1_inBounds
+#check @M4ri.Safety.accPleA11_1_aligned
+#check @M4ri.Safety.accPleA11_1_phase_witness
+#check @M4ri.Safety.shPleA11_1_ok
+#check @M4ri.Safety.accPleA10_inBounds
+#check @M4ri.Safety.accPleA10_aligned
+#check @M4ri.Safety.shPleA10_ok
+#check @M4ri.Safety.shPleA10_piv0_witness
+#check @M4ri.Safety.accMakeTablePle_inBounds
+#check @M4ri.Safety.accMakeTablePle_aligned
+#check @M4ri.Safety.shMakeTablePle_ok
+#check @M4ri.Safety.accMakeTablePle_writecol_witness
+#check @M4ri.Safety.accMakeTablePle_width_witness
+#check @M4ri.Safety.trsmRowAdd_inBounds
+#check @M4ri.Safety.trsmRowAdd_aligned
+#check @M4ri.Safety.accTrsmUpperLeftSubmatrix_inBounds
+#check @M4ri.Safety.accTrsmLowerLeftSubmatrix_inBounds
+#check @M4ri.Safety.accTrsmUpperLeftSubmatrix_aligned
+#check @M4ri.Safety.accTrsmLowerLeftSubmatrix_aligned
+#check @M4ri.Safety.shTrsmUpperLeftSubmatrix_ok
+#check @M4ri.Safety.shTrsmLowerLeftSubmatrix_ok
+#check @M4ri.Safety.accTrsmLowerLeftSubmatrix_rows_witness
+#check @M4ri.Safety.accTrsmUpperLeftSubmatrix_rows_witness
+#check @M4ri.Safety.accMakeTableTrtri_inBounds
+#check @M4ri.Safety.accMakeTableTrtri_aligned
+#check @M4ri.Safety.shMakeTableTrtri_ok
+#check @M4ri.Safety.accMakeTableTrtri_wide0_witness
+#check @M4ri.Safety.accMakeTableTrtri_rows_witness
+#check @M4ri.Safety.accMakeTableTrtri_width_witness
+#check @M4ri.Safety.all_reop_inBounds
+#check @M4ri.Safety.all_reop_aligned
+#check @M4ri.Safety.trsmTailAdd_inBounds
+#check @M4ri.Safety.trsmTailAdd_aligned
+#check @M4ri.Safety.makeTable_reop_inBounds
+#check @M4ri.Safety.makeTable_reop_aligned
+#check @M4ri.Safety.combine8_reop_inBounds
+#check @M4ri.Safety.combine8_reop_aligned
+#check @M4ri.Safety.accTrsmUpperMainBlock_inBounds
+#check @M4ri.Safety.accTrsmUpperTailBlock_inBounds
+#check @M4ri.Safety.accTrsmUpperLeftRussian_inBounds
+#check @M4ri.Safety.accTrsmUpperLeftRussian_aligned
+#check @M4ri.Safety.accTrsmLowerMainBlock_inBounds
+#check @M4ri.Safety.accTrsmLowerTailBlock_inBounds
+#check @M4ri.Safety.accTrsmLowerLeftRussian_inBounds
+#check @M4ri.Safety.accTrsmLowerLeftRussian_aligned
+#check @M4ri.Safety.accTrsmUpperLeftRussian_safe_partial
+#check @M4ri.Safety.accTrsmLowerLeftRussian_safe_partial
+#check @M4ri.Safety.accTrsmUpperLeftRussian_phase_witness
+#check @M4ri.Safety.accTrsmLowerLeftRussian_phase_witness
+#check @M4ri.Safety.accTrsmUpperLeftRussian_zero_cols_witness
+#check @M4ri.Safety.accTrsmUpperLeftRussian_zero_cols_odd_witness
+#check @M4ri.Safety.accTrsmLowerLeftRussian_zero_cols_witness
+#check @M4ri.Safety.accTrsmUpperLeftRussian_full_false
+#check @M4ri.Safety.accTrsmLowerLeftRussian_full_false
+#check @M4ri.Safety.shTrsmUpperLeftRussian_ok
+#check @M4ri.Safety.shTrsmLowerLeftRussian_ok
+#check @M4ri.Safety.accRowAddOffset_all_inBounds
+#check @M4ri.Safety.accRowAddOffset_all_aligned
+#check @M4ri.Safety.accTrtriUpperSubmatrix_inBounds
+#check @M4ri.Safety.accTrtriUpperSubmatrix_aligned
+#check @M4ri.Safety.shTrtriUpperSubmatrix_ok
+#check @M4ri.Safety.region_inBounds
+#check @M4ri.Safety.region_aligned
+#check @M4ri.Safety.acc64x64_inBounds
+#check @M4ri.Safety.acc64x64_aligned
+#check @M4ri.Safety.acc64x64_rows_witness
+#check @M4ri.Safety.acc64x64_2_inBounds
+#check @M4ri.Safety.acc64x64_2_aligned
+#check @M4ri.Safety.sh64x64_ok
+#check @M4ri.Safety.sh64x64_2_ok
+#check @M4ri.Safety.accLt64x64_inBounds
+#check @M4ri.Safety.accLt64x64_aligned
+#check @M4ri.Safety.accLt64x64_rows_witness
+#check @M4ri.Safety.shLt64x64_ok
+#check @M4ri.Safety.acc64xlt64_inBounds
+#check @M4ri.Safety.acc64xlt64_aligned
+#check @M4ri.Safety.acc64xlt64_rows_witness
+#check @M4ri.Safety.sh64xlt64_ok
+#check @M4ri.Safety.accSmall_inBounds
+#check @M4ri.Safety.accSmall_aligned
+#check @M4ri.Safety.accLe8_inBounds
+#check @M4ri.Safety.accLe16_inBounds
+#check @M4ri.Safety.accLe32_inBounds
+#check @M4ri.Safety.accLe64_inBounds
+#check @M4ri.Safety.accLe8_n0_witness
+#check @M4ri.Safety.accLe8_m0_witness
+#check @M4ri.Safety.shLe8_ok
+#check @M4ri.Safety.shLe8_n_witness
+#check @M4ri.Safety.shLe8_m_witness
+#check @M4ri.Safety.shLe16_ok
+#check @M4ri.Safety.shLe16_n_witness
+#check @M4ri.Safety.shLe32_ok
+#check @M4ri.Safety.shLe64_ok
+#check @M4ri.Safety.shSmall_ok
+#check @M4ri.Safety.accTransposeBase_inBounds
+#check @M4ri.Safety.accTransposeBase_aligned
+#check @M4ri.Safety.accTransposeBase_width_witness
+#check @M4ri.Safety.shTransposeBase_ok
+#check @M4ri.Safety.accTransposeNotsmall_inBounds
+#check @M4ri.Safety.accTransposeNotsmall_aligned
+#check @M4ri.Safety.shTransposeNotsmall_ok
+#check @M4ri.Safety.accTransposeTop_inBounds
+#check @M4ri.Safety.accTransposeTop_aligned
+#check @M4ri.Safety.shTransposeTop_ok
+#check @M4ri.Safety.accTransposeTop_empty_witness
+#check @M4ri.Safety.assertsTransposeNotsmall_full_false
+#check @M4ri.Safety.assertsTransposeNotsmall_square_witness
+#check @M4ri.Safety.assertsTransposeNotsmall_partial
+#check @M4ri.Safety.accCopyOps_inBounds
+#check @M4ri.Safety.accCopyOps_aligned
+#check @M4ri.Safety.transposeTop_reOp_inBounds
+#check @M4ri.Safety.accMzdTranspose_inBounds
+#check @M4ri.Safety.accMzdTranspose_inBounds_operands
+#check @M4ri.Safety.accMzdTranspose_aligned
+#check @M4ri.Safety.shMzdTranspose_ok
+#check @M4ri.Safety.accMzdTranspose_shape_witness
 
 end M4ri.Props.C11
